@@ -173,3 +173,39 @@ Example C13_release_nonvacuous :
                 /\ map e_qfi es = [Some (Some 9); Some (Some 9); Some (Some 9)] /\ queue_of s' 1 = [] /\ queue_of s' 2 = []
   end.
 Proof. vm_compute. repeat split; reflexivity. Qed.
+
+(* ---------------------------------------------------------------- the way in: the BUFFER notification of the gtp5g module
+   (buffnetlink.decodbuffer, octet-level model model/BuffDec.v; its shape is read from the source: gen/BuffDecGen.v) *)
+From GoUpf Require BuffDecGen BuffDec BuffDecProofs.
+
+(* whatever the order of the attributes, with repetitions (the last one of a kind counts) and attributes of other types
+   in between, for every packet length (padding of 0..3 octets is not part of the packet) and every 64-bit SEID: the
+   walk returns exactly the SEID, PDR id, apply action and packet the message carries *)
+Theorem C13_buffer_notification_decoded : forall l, Forall BuffDec.battr_ok l ->
+  BuffDec.dec_buffer (BuffDec.enc_msg l) = BuffDec.DOk (fold_left BuffDec.apply_attr l BuffDec.b0).
+Proof. exact BuffDecProofs.dec_buffer_enc. Qed.
+Print Assumptions C13_buffer_notification_decoded.
+
+Theorem C13_buffer_notification_kernel_form : forall seid pdr action pkt,
+  seid < 18446744073709551616 -> pdr < 65536 -> action < 65536 -> bytes_ok pkt -> BuffDec.len_of pkt < 65532 ->
+  BuffDec.dec_buffer (BuffDec.enc_msg [BuffDec.BPkt pkt; BuffDec.BSeid seid; BuffDec.BId pdr; BuffDec.BAct action])
+  = BuffDec.DOk (BuffDec.mkB seid pdr action (Some pkt)).
+Proof. exact BuffDecProofs.dec_buffer_kernel. Qed.
+Print Assumptions C13_buffer_notification_kernel_form.
+
+(* malformed notifications (they can only come from the kernel module): an attribute of length 0 makes the walk spin
+   for ever, a fixed-width field cut short or an unpadded tail faults, fewer than four octets are an error *)
+Theorem C13_buffer_decoder_faults :
+  BuffDec.dec_buffer [0; 0; 9; 0] = BuffDec.DLoop /\ BuffDec.dec_buffer [0; 0; 5; 0; 1; 0] = BuffDec.DLoop /\
+  BuffDec.dec_buffer [5; 0; 5; 0; 7] = BuffDec.DPanic /\
+  BuffDec.dec_buffer [5; 0; 4; 0; 170] = BuffDec.DPanic /\
+  BuffDec.dec_buffer [8; 0; 4] = BuffDec.DErr /\
+  BuffDec.dec_buffer [3; 0; 4; 0] = BuffDec.DPanic.
+Proof. exact BuffDecProofs.dec_buffer_faults. Qed.
+Print Assumptions C13_buffer_decoder_faults.
+
+Theorem C13_buffer_decoder_source_shape :
+  (BuffDecGen.buffdec_loop_cond, BuffDecGen.buffdec_before_switch, BuffDecGen.buffdec_cases, BuffDecGen.buffdec_after_switch,
+   BuffDecGen.buffdec_return, BuffDecGen.buffdec_notify_guard) = BuffDecProofs.buffdec_model_shape.
+Proof. exact BuffDecProofs.buffdec_shape_ok. Qed.
+Print Assumptions C13_buffer_decoder_source_shape.
